@@ -141,6 +141,26 @@ fn gen_i32(rng: &mut Rng) -> i32 {
 		_ => rng.next_u64() as i32,
 	}
 }
+/// a long string of `n` characters whose UTF-8 widths are mixed (or uniform) in a drawn way: ASCII, 2-, 3- and 4-byte
+/// characters — what lands on a refill boundary, in a scratch copy or at a byte offset of an error message
+pub fn long_string(n: usize, salt: u64) -> String {
+	const WIDE: [char; 6] = ['\u{436}', '\u{e9}', '\u{20ac}', '\u{65e5}', '\u{1F600}', '\u{10348}'];
+	match salt % 4 {
+		0 => (0..n).map(|i| (b'a' + ((i * 7 + n) % 26) as u8) as char).collect(),
+		1 => std::iter::repeat(WIDE[(salt / 4 % 6) as usize]).take(n).collect(),
+		_ => (0..n)
+			.map(|i| {
+				let h = (i as u64).wrapping_mul(0x9E37_79B9_7F4A_7C15).wrapping_add(salt) >> 40;
+				if h % 3 == 0 {
+					WIDE[(h / 3 % 6) as usize]
+				} else {
+					(b'a' + (h % 26) as u8) as char
+				}
+			})
+			.collect(),
+	}
+}
+
 fn gen_string(rng: &mut Rng, max_len: usize) -> String {
 	let n = rng.usize(max_len + 1);
 	let mut s = String::new();
@@ -218,7 +238,9 @@ fn gen_val_inner(rng: &mut Rng, env: &Env, ty: &Ty, cfg: &ValCfg, budget: &mut i
 			if matches!(env.resolve(ty), Ty::Bytes) {
 				Val::Bytes(rng.bytes(n))
 			} else {
-				Val::Str((0..n).map(|i| (b'a' + ((i * 7 + n) % 26) as u8) as char).collect())
+				// (sized in bytes for ASCII; the wide variants are a quarter as many characters)
+				let salt = rng.next_u64();
+				Val::Str(long_string(if salt % 4 == 0 { n } else { n / 4 + 1 }, salt))
 			}
 		}
 		Ty::Bytes => {
@@ -228,7 +250,8 @@ fn gen_val_inner(rng: &mut Rng, env: &Env, ty: &Ty, cfg: &ValCfg, budget: &mut i
 		Ty::String => {
 			if cfg.str_boost > 0 && rng.chance(1, 3) {
 				let n = cfg.str_boost / 2 + rng.usize(cfg.str_boost / 2 + 1);
-				Val::Str((0..n).map(|i| (b'a' + ((i * 7 + n) % 26) as u8) as char).collect())
+				let salt = rng.next_u64();
+				Val::Str(long_string(if salt % 4 == 0 { n } else { n / 3 + 1 }, salt))
 			} else {
 				Val::Str(gen_string(rng, cfg.max_len))
 			}
@@ -319,7 +342,7 @@ fn gen_val_inner(rng: &mut Rng, env: &Env, ty: &Ty, cfg: &ValCfg, budget: &mut i
 /// every string / bytes value inside `v` gets exactly `len` bytes (deterministic content)
 pub fn set_str_len(v: &mut Val, len: usize, salt: u64) {
 	match v {
-		Val::Str(s) => *s = (0..len).map(|i| (b'a' + ((i as u64 * 7 + len as u64 + salt) % 26) as u8) as char).collect(),
+		Val::Str(s) => *s = long_string(len, salt.wrapping_mul(0x2545_F491_4F6C_DD1D) >> 7),
 		// (incompressible)
 		Val::Bytes(b) => *b = Rng::from_seed(salt ^ ((len as u64) << 32)).bytes(len),
 		Val::Array(items) => items.iter_mut().for_each(|x| set_str_len(x, len, salt)),
